@@ -13,6 +13,7 @@ type c02Case struct {
 	HasElse bool   `json:"has_else,omitempty"`
 	Rep     int    `json:"rep"`             // rotation of the class representatives
 	VarMask int    `json:"varmask"`         // which conditions are data-supplied variables (bit i)
+	Empty   int    `json:"empty,omitempty"` // 0 none; 1 first branch empty; 2 every second branch empty; 3 all branches empty; 4 first branch comment-only; 5 all branches comment-only
 	Paren   bool   `json:"paren,omitempty"` // branch bodies and the text after the construct start with "("
 	Place   []int  `json:"place"`           // nesting: 0 top, 1 in @each body, 2 in @if branch, 3 in @elseif branch, 4 in @else branch
 }
@@ -59,15 +60,24 @@ func c02Build(cs c02Case) ([]*Node, map[string]Val) {
 		}
 		return s
 	}
+	body := func(i int, s string) []*Node {
+		switch {
+		case cs.Empty == 1 && i == 0, cs.Empty == 2 && i%2 == 1, cs.Empty == 3:
+			return nil
+		case cs.Empty == 4 && i == 0, cs.Empty == 5:
+			return []*Node{{K: "comment", Text: " c "}}
+		}
+		return []*Node{nText(mark(s))}
+	}
 	switch cs.Mode {
 	case "chain":
-		n := &Node{K: "if", E: cond(0, cs.Classes[0]), Body: []*Node{nText(mark("B0"))}}
+		n := &Node{K: "if", E: cond(0, cs.Classes[0]), Body: body(0, "B0")}
 		for i := 1; i < len(cs.Classes); i++ {
-			n.ElseIfs = append(n.ElseIfs, ElseIf{Cond: cond(i, cs.Classes[i]), Body: []*Node{nText(mark(fmt.Sprintf("B%d", i)))}})
+			n.ElseIfs = append(n.ElseIfs, ElseIf{Cond: cond(i, cs.Classes[i]), Body: body(i, fmt.Sprintf("B%d", i))})
 		}
 		if cs.HasElse {
 			n.HasElse = true
-			n.Else = []*Node{nText(mark("BE"))}
+			n.Else = body(len(cs.Classes), "BE")
 		}
 		construct = []*Node{nText("P"), n, nText(mark("Q"))}
 	case "ternary":
@@ -208,6 +218,11 @@ func c02Run(c *Ctx) {
 							if rep < 2 && vm == 0 {
 								if !do(c02Case{Mode: "chain", Classes: classes, HasElse: hasElse, Rep: rep, VarMask: vm, Place: pl, Paren: true}, true) {
 									return false
+								}
+								for em := 1; em <= 5; em++ {
+									if !do(c02Case{Mode: "chain", Classes: classes, HasElse: hasElse, Rep: rep, VarMask: vm, Place: pl, Empty: em}, true) {
+										return false
+									}
 								}
 							}
 						}
